@@ -8,8 +8,8 @@
   65 536 half-precision inputs, every float64 for the encoder entry points), there is no size bound.
 
   Heavy kernel enumerations live in Proofs/C11_Enc_<T>_<kk>.lean (9 tables × 16 chunks), Proofs/C11_Dec.lean,
-  Proofs/C11_Reenc_<T>.lean, Proofs/C11_Mxint_<kk>.lean, Proofs/C11_Bf_<kk>.lean; general lemmas in Proofs/C11.lean
-  and Proofs/C11_Api.lean.  This file states the property clauses and derives them.
+  Proofs/C11_Reenc_<T>.lean, Proofs/C11_Bf_<kk>.lean (all 65 536 bfloat codes, see Props/C11_Bfloat.lean); general
+  lemmas in Proofs/C11.lean and Proofs/C11_Api.lean.  This file states the property clauses and derives them.
 -/
 import BitstringModel.Proofs.C11_Api
 import BitstringModel.Proofs.C11_Reenc_P3
@@ -243,8 +243,19 @@ theorem mxint_roundtrip (c : Nat) (hc : c < 256) : (decode .mxint c >>= encode .
        mxintEnc f = match f64Val f with
          | .nan => .error .value | .inf s => .ok (if s then 0x80 else 0x7f) | .fin s m e => .ok (mxintCodeSpec s m e)
    What is missing: a proof that `roundBits 11 52` is the identity on the float64-representable sums `64·f ± ½`.
-   Proved instead: the statement on every mxint code (`mxint_roundtrip`) and on every half-precision input
-   (`mxint_rne_partial`, Props/C11_Mxint.lean), and that it is false on the two excluded inputs: -/
+   (A kernel enumeration over the 65 536 half-precision inputs was measured at about 30 CPU-minutes and left out.)
+   Proved instead: the statement on every representable value (`mxint_rne_partial` below, all 256 codes), that the
+   specification's rounding is the declarative nearest-even (`mxint_spec_is_nearest_even`), and that the full statement
+   is false on the two excluded inputs (`mxint_deviation_witness`).  Every half-precision input and the float64 ties
+   ±1 ulp are compared with an exact-rational oracle by the correspondence run. -/
+
+/-- `mxint_rne` restricted to the exactly representable inputs: for every code `c`, `mxint2bitstore` applied to the
+    float `int8(c)·2⁻⁶` returns the nearest-even code of 64 times that value — which is `c`. -/
+theorem mxint_rne_partial (c : Nat) (hc : c < 256) :
+    mxintEnc (mxintDec c) = .ok (match mxintDecSpec c with | .fin s m e => mxintCodeSpec s m e | _ => 0) ∧
+    (match mxintDecSpec c with | .fin s m e => mxintCodeSpec s m e | _ => 0) = c :=
+  of_decide_eq_true (allBelow_spec mxintRneChk c hc)
+
 
 /-- Witness of the known deviation (known_findings.d/C11.json, region `mxintDeviates`): for `64·|f| = ½ + 2⁻⁵³`
     `f += 0.5` rounds to exactly 1.0, the tie rule then decrements it, and the code is 0 where nearest-even demands ±1. -/
